@@ -680,13 +680,18 @@ class Gen:
         subj = self.int_expr(sc, 1)
         vals = r.sample(range(0, 5), r.randint(1, 3))
         clauses = [["case", lit(v), None] for v in vals]
+        if r.random() < 0.2:
+            clauses.insert(r.randint(0, len(clauses) - 1), ["case", lit(r.choice([5, 6])), "EMPTY"])      # case 5: case k: grouping
         if r.random() < 0.6:
             clauses.insert(r.randint(0, len(clauses)), ["default", None])
         for idx, cl in enumerate(clauses):
+            if cl[-1] == "EMPTY":
+                cl[-1] = []
+                continue
             body = self.block(inner, d + 1, r.randint(1, 2))
             last = idx == len(clauses) - 1
-            if not last or r.random() < 0.5:
-                # a clause of the clean fragment ends in a jump
+            if r.random() < (0.7 if not last else 0.5):
+                # most clauses end in a jump; the others fall through into the next clause
                 c = r.random()
                 if c < 0.75:
                     body.append(["break", 1])
@@ -1123,7 +1128,7 @@ def dirty_programs(rng, n):
         else:
             main = [["for", [["assign", "i", lit(0)]], ["bin", "Lt", var("i"), lit(2 + sel % 2)], [["postinc", "i"]],
                      [["static", "z", 5], ["expr", ["postinc", "z"]], tag("z:", var("z"))]]]
-        out.append(({"funcs": [], "main": main}, key))
+        out.append(({"funcs": [], "main": main}, None))
     return out
 
 
@@ -1600,7 +1605,8 @@ def main(ck):
             nrand -= 1
         ck.cov["random_programs_discarded_by_magnitude_filter"] = discarded
         for pr, key in dirty_programs(rng, 40 if ck.tier == "quick" else 200):
-            cases.append((pr, False, key, "dirty"))
+            # key None: the repaired classes (switch fall-through, static in the main script) — clean programs now
+            cases.append((pr, key is None, key, "dirty" if key else "fallthrough"))
         cases.sort(key=lambda c: size_of(c[0]))
 
     progs = [c[0] for c in cases]
@@ -1680,7 +1686,7 @@ def main(ck):
     ck.cov["construct_occurrences"] = dist
     ck.cov["program_size_median"] = sizes[len(sizes) // 2] if sizes else 0
     ck.cov["program_size_max"] = sizes[-1] if sizes else 0
-    ck.cov["families"] = {f: sum(1 for c in cases if c[3] == f) for f in ("nest2", "alias", "escape", "recursion", "paramalias", "match", "closure", "callargs", "staticbranch", "index", "random", "dirty", "replay")}
+    ck.cov["families"] = {f: sum(1 for c in cases if c[3] == f) for f in ("nest2", "alias", "escape", "recursion", "paramalias", "match", "closure", "callargs", "staticbranch", "index", "fallthrough", "random", "dirty", "replay")}
     ck.cov["impl_outcomes"] = outcome_hist
     ck.samples = [srcs[len(srcs) // 2], srcs[-1]] if srcs else []
     ck.finish(level="proof", evaluations=len(cases), distinct_nontrivial=nontriv,
